@@ -265,3 +265,66 @@ Proof.
   intros. unfold fast_SIS_arg, norm_initial. split; [destruct rho; reflexivity|]. split; [reflexivity|].
   intros x ->. reflexivity.
 Qed.
+
+(* ---------------- the entry points with the argument forms ---------------- *)
+Definition arg_nodes (a : init_arg) : option (list node) :=
+  match a with IAbsent => None | IOne x => Some [x] | IMany l => Some l end.
+
+Section ArgTop.
+Variable g : graph.
+Hypothesis Hadj : forall u v, In v (gadj g u) -> In v (gnodes g).
+
+Theorem fsis_arg_starts_as_requested : forall tau gamma tmax tmin a rho full fuel ds out tr,
+  NoDup (gnodes g) -> xlt tmin tmax = true ->
+  (forall l, arg_nodes a = Some l -> NoDup l /\ incl l (gnodes g)) ->
+  exec (fast_SIS_arg g tau gamma tmax a rho tmin full fuel) ds [] = (Ok out, tr) ->
+  exists i0, NoDup i0 /\ incl i0 (gnodes g) /\
+    match arg_nodes a with
+    | Some l => i0 = l /\ rho = None
+    | None => Z.of_nat (length i0) = requested g rho /\ (0 <= requested g rho <= order g)%Z /\
+              ic_sis_rhob (gnodes g) rho tmin (so_rows out) (so_full out) = true
+    end /\
+    ic_sisb (gnodes g) i0 tmin (so_rows out) (so_full out) = true.
+Proof.
+  intros tau gamma tmax tmin a rho full fuel ds out tr Hnd Hvis Hi H. unfold fast_SIS_arg in H.
+  destruct rho as [r|].
+  - destruct a as [|x|l]; cbn [arg_given] in H; try (cbn [exec] in H; discriminate H).
+    apply (fsis_starts_as_requested_any g Hadj tau gamma tmax tmin None (Some r) full fuel ds out tr Hnd Hvis); [intros l K; discriminate K|exact H].
+  - destruct a as [|x|l]; cbn [norm_initial arg_nodes] in *.
+    + apply (fsis_starts_as_requested_any g Hadj tau gamma tmax tmin None None full fuel ds out tr Hnd Hvis); [intros l K; discriminate K|exact H].
+    + destruct (Hi [x] eq_refl) as [Hn Hc].
+      assert (Hm : mem x (gnodes g) = true) by (apply mem_In_true; apply Hc; left; reflexivity). rewrite Hm in H.
+      apply (fsis_starts_as_requested_any g Hadj tau gamma tmax tmin (Some [x]) None full fuel ds out tr Hnd Hvis); [|exact H].
+      intros l K. injection K as <-. split; assumption.
+    + apply (fsis_starts_as_requested_any g Hadj tau gamma tmax tmin (Some l) None full fuel ds out tr Hnd Hvis); [|exact H].
+      intros l' K. injection K as <-. apply Hi. reflexivity.
+Qed.
+
+Theorem nmsis_arg_starts_as_requested : forall dur delays tmax tmin a rho full fuel ds out tr,
+  NoDup (gnodes g) -> xlt tmin tmax = true -> rules_ok dur delays ->
+  (forall l, arg_nodes a = Some l -> NoDup l /\ incl l (gnodes g)) ->
+  exec (fast_nonMarkov_SIS_arg g dur delays tmax a rho tmin full fuel) ds [] = (Ok out, tr) ->
+  exists i0, NoDup i0 /\ incl i0 (gnodes g) /\
+    match arg_nodes a with
+    | Some l => i0 = l /\ rho = None /\ tr = []
+    | None => Z.of_nat (length i0) = requested g rho /\ (0 <= requested g rho <= order g)%Z /\
+              ic_sis_rhob (gnodes g) rho tmin (so_rows out) (so_full out) = true /\
+              tr = [CSample (map knode (gnodes g)) (Z.to_nat (requested g rho))]
+    end /\
+    ic_sisb (gnodes g) i0 tmin (so_rows out) (so_full out) = true.
+Proof.
+  intros dur delays tmax tmin a rho full fuel ds out tr Hnd Hvis Hr Hi H. unfold fast_nonMarkov_SIS_arg in H.
+  destruct rho as [r|].
+  - destruct a as [|x|l]; cbn [arg_given] in H; try (cbn [exec] in H; discriminate H).
+    apply (nmsis_starts_as_requested_any g Hadj dur delays tmax tmin None (Some r) full fuel ds out tr Hnd Hvis Hr); [intros l K; discriminate K|exact H].
+  - destruct a as [|x|l]; cbn [norm_initial arg_nodes] in *.
+    + apply (nmsis_starts_as_requested_any g Hadj dur delays tmax tmin None None full fuel ds out tr Hnd Hvis Hr); [intros l K; discriminate K|exact H].
+    + destruct (Hi [x] eq_refl) as [Hn Hc].
+      assert (Hm : mem x (gnodes g) = true) by (apply mem_In_true; apply Hc; left; reflexivity). rewrite Hm in H.
+      apply (nmsis_starts_as_requested_any g Hadj dur delays tmax tmin (Some [x]) None full fuel ds out tr Hnd Hvis Hr); [|exact H].
+      intros l K. injection K as <-. split; assumption.
+    + apply (nmsis_starts_as_requested_any g Hadj dur delays tmax tmin (Some l) None full fuel ds out tr Hnd Hvis Hr); [|exact H].
+      intros l' K. injection K as <-. apply Hi. reflexivity.
+Qed.
+
+End ArgTop.
